@@ -47,7 +47,21 @@ class P:
 
     def gen_case(self, rng):
         n = rng.choice([0, 0, 1, 2, 3, 4, 5, 7, 8, 9, 15, 16, 17, rng.randint(0, 64), rng.randint(0, 300)])
-        buf = bytes(rng.randrange(256) for _ in range(n))
+        k = rng.random()
+        if k < 0.7:
+            buf = bytes(rng.randrange(256) for _ in range(n))
+        elif k < 0.85:
+            # values that are special as integers: all ones, all zeros, only the top bit, everything but the top bit - over the whole
+            # buffer, so that every width at every position reads 2^w-1, 0, 2^(w-1) ... (a value must never be taken for a signal)
+            buf = bytes([rng.choice([0xff, 0xff, 0x00, 0x80, 0x7f])]) * n
+        else:
+            # ... and runs of them inside random data
+            b = bytearray(rng.randrange(256) for _ in range(n))
+            for _ in range(rng.choice([1, 2])):
+                if n:
+                    i, m = rng.randrange(n), rng.choice([1, 2, 4, 8, 9, 16])
+                    b[i:i + m] = bytes([rng.choice([0xff, 0x00])]) * len(b[i:i + m])
+            buf = bytes(b)
         ops = []
         for _ in range(rng.randint(1, 24)):
             o = rng.choice(OPS)
